@@ -322,6 +322,20 @@ def corpus(tier):
             except Exception:  # noqa: BLE001
                 continue
             items.append((f"optable:{opn}{at or ''}:{TP.DataType.Name(dt)}", m.SerializeToString(), [("x", int(dt), tuple(shp)), ("y", int(dt), tuple(shp))]))
+            if not at and opn in ("Add", "Mul", "Sub", "Less", "And", "MatMul"):
+                # a graph made ONLY of operators that use_operators renders in infix form (no opset is mentioned in its body)
+                nodes2 = [oh.make_node(opn, ["x", "y"], ["t"]), oh.make_node(opn, ["t", "y"] if not cmp_ else ["y", "x"], ["z"])]
+                if cmp_:
+                    nodes2 = [oh.make_node(opn, ["x", "y"], ["z"])]
+                g2 = oh.make_graph(nodes2, "infixonly", [oh.make_tensor_value_info("x", dt, shp), oh.make_tensor_value_info("y", dt, shp)],
+                                   [oh.make_tensor_value_info("z", odt, shp)])
+                m2 = oh.make_model(g2, opset_imports=[oh.make_opsetid("", 18)], ir_version=9)
+                try:
+                    onnx.checker.check_model(m2, full_check=True)
+                    items.append((f"optable:infix-only:{opn}:{TP.DataType.Name(dt)}", m2.SerializeToString(),
+                                  [("x", int(dt), tuple(shp)), ("y", int(dt), tuple(shp))]))
+                except Exception:  # noqa: BLE001
+                    pass
     # the same operators with a CONSTANT operand on either side (negative / positive, 0-d / one-element 1-d): what inline_const renders
     from onnx import numpy_helper as nh_
     for opn in ("Add", "Sub", "Mul", "Div", "Pow"):
